@@ -63,7 +63,20 @@ def oracle(case, recs):
         for e in r.events:
             if e[1] == "out_set":
                 out_sets.setdefault(e[2], set()).add(e[3])
-        if r.no >= 0 and not paused_before and paused_after and r.flags[0]:
+        rs = [e[2] for e in r.events if e[1] == "runstate" and e[2] in ("Pause", "Unpause")]
+        if (r.no >= 0 and paused_before and paused_after and r.flags[0] and "Unpause" in rs
+                and "Pause" in rs[rs.index("Unpause") + 1:]):
+            # the open pause was undone and a NEW pause began inside this tick (a queued Unpause executes, commands of
+            # the tick run, a queued Pause executes): the values restored in between are not observable at the end of
+            # the tick, and the new pause has its own pre-pause values - the ones the engine held when it captured
+            info["repause_within_tick"] = info.get("repause_within_tick", 0) + 1
+            if expected is not None:
+                history.append((run_no, expected))
+            if len(r.safe_calls) == 1:
+                expected = {reg: {r.safe_calls[0][reg]} for reg in OUT_SAFE}
+            else:
+                expected = None      # capture moment not observable: this pause is not judged
+        elif r.no >= 0 and not paused_before and paused_after and r.flags[0]:
             # a pause began in this tick
             cand = {}
             for reg in OUT_SAFE:
